@@ -228,6 +228,9 @@ def leaf_order(ck, prog):
             n_w += 1
             iw = g.walk(ops=[t["args"][1]], at=(b, "T"), through=lambda tt: True)
             ok = any(is_map_lookup(f.term(n[1])) for n in iw if n[0] == "c")
+            # ... the looked-up value itself, not a value computed from one (siblings are adjacent in the tree, not in the caller's list)
+            near = g.walk(ops=[t["args"][1]], at=(b, "T"), through=lambda tt: not is_map_lookup(tt))
+            ok = ok and not any(n[0] == "b" and str(n[1]).startswith(("Add", "Sub", "Mul", "Shl", "Shr", "BitXor", "BitOr")) for n in near)
             owner = f.nname.split("::")[-2] if f.kind == "closure" else f.nname.split("::")[-1]
             ck.ob("L", f"{owner}:leaves-write#{n_w}", ok,
                   f"{owner} stores a leaf at the slot looked up in a position map (caller order), not at a loop counter over the sorted list",
